@@ -9,7 +9,7 @@ def structural_positions(case):
     one = dict(case, ops=[['pop', N]])
     tr = QC.run_case(one)
     pos = set()
-    for (key, k, dur, _) in tr.added:
+    for (key, k, dur, *_) in tr.added:
         pos.update((k, k + tr.lens[key]))
     pos = sorted(p for p in pos if 0 < p < N)
     return pos
@@ -148,7 +148,7 @@ class C02(Spec):
         covered = [False] * N
         uses = {}
         prev = None
-        for (key, k, dur, ongrid) in tr.added:
+        for (key, k, dur, ongrid, payload_ok) in tr.added:
             if not ongrid:
                 return f'notified t0 of key {key} is not t0 + {k}/fs'
             L = tr.lens[key]
